@@ -165,7 +165,7 @@ fn run_case(base: &Base, path: &str, slot: usize, d: &Damage) -> CaseResult {
     let want_meta = match fileck::choose_meta(&img, ps as u64) {
         Ok(m) => m,
         Err(e) => {
-            res.class = Some(("harness".into(), format!("the undamaged header does not validate: {}", e)));
+            res.class = Some(("header_invalid_per_pinned_format".into(), format!("the undamaged header written by the library does not validate under the pinned header format (type byte + FNV-1a over all nine fields): {}", e)));
             return res;
         }
     };
